@@ -44,13 +44,22 @@ class _Prune(Flow):
                         and n.args[0].id == v
                     ):
                         return v
-        # `X in que and both-empty` form
+        # `X in que and both-empty` form; the both-empty predicate may itself be spread over several conjuncts
+        # (`not X.get('todo') and not X.get('doing')`)
         if isinstance(s.test, ast.BoolOp) and isinstance(s.test.op, ast.And):
-            for part in s.test.values:
+            for cand in sorted(names_in(s.test)):
+                understood = [p for p in s.test.values if shared.predicate_table(p, cand) is not None]
+                if not understood:
+                    continue
+                part = ast.BoolOp(op=ast.And(), values=understood) if len(understood) > 1 else understood[0]
                 inner = ast.If(test=part, body=s.body, orelse=[])
-                v = self._prune_var(inner)
+                v = self._prune_var(inner) if not (isinstance(part, ast.BoolOp) and len(understood) == len(s.test.values)) else None
+                if v is None and isinstance(part, ast.BoolOp):
+                    table = shared.predicate_table(part, cand)
+                    if table and table[(False, False)] and not table[(True, False)] and not table[(False, True)] and not table[(True, True)]:
+                        v = self._prune_var(ast.If(test=ast.UnaryOp(op=ast.Not(), operand=ast.BoolOp(op=ast.Or(), values=[ast.UnaryOp(op=ast.Not(), operand=u) for u in understood])), body=s.body, orelse=[]))
                 if v is not None:
-                    others = [p for p in s.test.values if p is not part]
+                    others = [p for p in s.test.values if not any(p is u for u in understood)]
                     # the remaining conjuncts may only (a) test queue membership of the same node, or
                     # (b) exempt a node for which the withdrawn element was *executing* (flag = `elem in X.get('doing')`
                     # taken before the removal): that node has a reply outstanding and complete() prunes it then
